@@ -48,6 +48,8 @@ var Combos = []Combo{{"memkm", "memca"}, {"localkm", "gcsca"}, {"localkm", "loca
 // Authority is one authority instance (its persistent state and, for the in-memory components, the
 // component objects themselves).
 type Authority struct {
+	// SigningKeyPrefix, when set, is given to the object-store certificate authority (no flag sets it)
+	SigningKeyPrefix string
 	Combo
 	Dir     string // scratch directory: keys/ and bucketroot/
 	Storage *MemStorage
@@ -201,12 +203,16 @@ func (a *Authority) components(t *Tap) (km cmd.CommandComponent, ca cmd.CommandC
 			}
 			ca = a.longCA
 		} else {
-			ca = &gcsca.CertificateAuthority{Storage: a.Storage}
+			ca = &gcsca.CertificateAuthority{Storage: a.Storage, SigningKeyPrefix: a.SigningKeyPrefix}
 		}
+		flags = append(flags, "--bucket", bucket, "--root_path", a.rootPathFlag(), "--cert_dir", a.certDirFlag())
+	case "gcsdisk":
+		// the object-store authority on real files: storage/local behind the tap
+		ca = &gcsca.CertificateAuthority{Storage: &DiskStorage{Inner: &local.StorageClient{Root: filepath.Join(a.Dir, "bucketroot")}, T: t}}
 		flags = append(flags, "--bucket", bucket, "--root_path", a.rootPathFlag(), "--cert_dir", a.certDirFlag())
 	default:
 		ca = &localca.T{CA: &gcsca.CertificateAuthority{Storage: &local.StorageClient{}}}
-		flags = append(flags, "--bucket_root", filepath.Join(a.Dir, "bucketroot"), "--bucket", bucket, "--root_path", rootPath, "--cert_dir", certDir)
+		flags = append(flags, "--bucket_root", filepath.Join(a.Dir, "bucketroot"), "--bucket", bucket, "--root_path", a.rootPathFlag(), "--cert_dir", a.certDirFlag())
 	}
 	return
 }
